@@ -22,10 +22,12 @@ EXPLANATION = (
     "isoformat/fromisoformat pairing are extracted from encoder and decoder and compared as sets. R18c: every "
     "entry of the literal CSS3_COLORMAP is validated (lower-case key, three ints in 0..255, grey/gray twins, the "
     "17 CSS2.1 basic colours against their specified values) and the format fields / slices of rgb2hex / hex2rgb "
-    "are checked to tile '#RRGGBB'. Inverse-ness over value domains (float division in Duration.encode, time zones, "
-    "microseconds, Unit) is not decided."
+    "are checked to tile '#RRGGBB'. R18e: Unit writes the stored Decimal through plain str() followed by the unit, stores "
+    "Decimal(<digits as given>) and parses digits and '.' as the number. Inverse-ness over value domains (float division in "
+    "Duration.encode, time zones, microseconds, floats with an exponent handed to Unit) is not decided."
 )
 ASSUMPTIONS = [
+    "str(Decimal(d)) writes back the digits d it was built from when d has no exponent (decimal module)",
     "datetime.isoformat / fromisoformat are inverse on the values odfdo handles (Python >= 3.11 accepts 'Z')",
     "CSS 2.1 basic colour values (W3C) as frozen in BASIC_COLORS",
 ]
